@@ -34,8 +34,8 @@
 #define BURST  3
 
 /* ---- accept answers --------------------------------------------------- */
-enum { A_REAL, A_EAGAIN, A_EINTR, A_ECONNABORTED, A_EMFILE, A_ENOMEM, A_SOCKLEN0, A_STICKY_EMFILE, A_STICKY_ECONNABORTED, A_N };
-static const char *const ans_name[A_N] = { "real", "EAGAIN", "EINTR", "ECONNABORTED", "EMFILE", "ENOMEM", "socklen0", "burst-EMFILE", "burst-ECONNABORTED" };
+enum { A_REAL, A_EAGAIN, A_EINTR, A_ECONNABORTED, A_EMFILE, A_SOCKLEN0, A_STICKY_EMFILE, /* -P answers=9: */ A_ENOMEM, A_STICKY_ECONNABORTED, A_N };
+static const char *const ans_name[A_N] = { "real", "EAGAIN", "EINTR", "ECONNABORTED", "EMFILE", "socklen0", "burst-EMFILE", "ENOMEM", "burst-ECONNABORTED" };
 
 /* ---- configuration ---------------------------------------------------- */
 enum { K_TCP_NEW, K_UNIX_NEW, K_TCP_BIND, K_N };
@@ -77,6 +77,7 @@ static int lfd = -1;
 static struct sockaddr_storage laddr; static socklen_t laddrlen;
 static int armed, accept_calls, sticky, sticky_left, pending_err, pending_err_errno, in_loop;
 static int n_errcb, n_deliv;
+static int n_answers = A_N, incb_max = 99, incb_used;
 
 static char ud1, ud2;                 /* user_data for cb1 / cb2 */
 static void acb1(struct evconnlistener *, evutil_socket_t, struct sockaddr *, int, void *);
@@ -167,12 +168,12 @@ static int scripted_accept(int fd, struct sockaddr *addr, socklen_t *alen, int f
 	if (sticky_left > 0) { a = sticky; sticky_left--; }
 	else {
 		sticky = 0;
-		a = mc_choose(A_N, 1, "accept");
+		a = mc_choose(n_answers, 1, "accept");
 		if (a == A_STICKY_EMFILE) { sticky = A_EMFILE; a = A_EMFILE; sticky_left = BURST - 1; }
 		else if (a == A_STICKY_ECONNABORTED) { sticky = A_ECONNABORTED; a = A_ECONNABORTED; sticky_left = BURST - 1; }
 	}
-	if (a != A_REAL && a != A_SOCKLEN0) {
-		static const int e[] = { 0, EAGAIN, EINTR, ECONNABORTED, EMFILE, ENOMEM };
+	if (a != A_REAL && a != A_SOCKLEN0) {   /* an errno answer */
+		static const int e[A_N] = { 0, EAGAIN, EINTR, ECONNABORTED, EMFILE, 0, 0, ENOMEM, 0 };
 		mc_observe("acc:%s%s ", ans_name[a], sticky ? "*" : "");
 		MC_COUNT("accept_faults_injected");
 		if (!is_retriable(e[a])) { pending_err = 1; pending_err_errno = e[a]; }
@@ -268,7 +269,8 @@ static void accept_cb(int which, struct evconnlistener *l, evutil_socket_t fd, s
 	else MC_COUNT("oracle_peer_address_checked");
 	if (!fd_is_open(fd)) mc_fail("C44/delivered-fd-closed", "delivered fd is not open");
 
-	int act = mc_choose(IN_N, 0, "in-callback");
+	int act = incb_used < incb_max ? mc_choose(IN_N, 0, "in-callback") : 0;
+	if (act) incb_used++;
 	mc_observe("cb%d(c%d)%s%s ", which, r->client, act ? ":" : "", in_name[act]);
 	switch (act) {
 	case IN_DISABLE: do_disable(); MC_COUNT("incb_disable"); break;
@@ -293,7 +295,8 @@ static void ecb(struct evconnlistener *l, void *arg)
 	if (!M.freed && arg != (M.cb == 1 ? (void *)&ud1 : M.cb == 2 ? (void *)&ud2 : NULL))
 		mc_fail("C44/callback-wrong-user-data", "error callback got the wrong user_data");
 	pending_err = 0;
-	int act = mc_choose(EIN_N, 0, "in-errorcb");
+	int act = incb_used < incb_max ? mc_choose(EIN_N, 0, "in-errorcb") : 0;
+	if (act) incb_used++;
 	mc_observe("ecb%s ", act == EIN_FREE ? ":free" : act == EIN_DISABLE ? ":disable" : "");
 	if (act == EIN_FREE) { do_free(); MC_COUNT("inecb_free"); }
 	else if (act == EIN_DISABLE) { do_disable(); MC_COUNT("inecb_disable"); }
@@ -400,6 +403,7 @@ static void loop_step(void)
  *  - the kernel accept queue: for each client not yet handed over, in queue
  *    (= connect) order, how it was closed; plus how many client slots are used
  *    (bounds the remaining connects).
+ *  - how many in-callback actions have been spent (bounds the remaining ones).
  * Delivered / closed connections cannot influence the future: the harness only
  * holds their fds until the end.  Sticky faults and pending errors never cross
  * an operation boundary. */
@@ -407,7 +411,7 @@ static uint64_t canon(void)
 {
 	uint64_t h = 0x4c34;
 	h = mc_hash_u64(h, C.kind | C.ts << 2 | C.errcb << 3 | C.cof << 4 | C.disabled << 5 | C.cb0 << 6);
-	h = mc_hash_u64(h, M.enabled | M.cb << 1 | M.had_cb << 3 | M.freed << 4 | ncli << 5);
+	h = mc_hash_u64(h, M.enabled | M.cb << 1 | M.had_cb << 3 | M.freed << 4 | ncli << 5 | (incb_used < incb_max ? incb_used : incb_max) << 8);
 	if (!M.freed) {
 		struct evconnlistener_event *le = EVUTIL_UPCAST(lev, struct evconnlistener_event, base);
 		int icb = lev->cb == acb1 ? 1 : lev->cb == acb2 ? 2 : lev->cb ? 3 : 0;
@@ -445,8 +449,13 @@ static void body(void)
 	ncli = nrec = 0; armed = accept_calls = sticky = sticky_left = pending_err = in_loop = n_errcb = n_deliv = 0;
 	lev = NULL; lfd = -1;
 
-	int a = mc_choose(K_N * 2 * 2, 0, "cfgA");
+	/* cfgA: socket kind x LEV_OPT_THREADSAFE x error callback installed.
+	 * -P cfgs=0: a curated third of the product (every value of every dimension occurs). */
+	static const int curated[4] = { 0 /* tcp */, 1 + K_N /* unix,ts */, 2 + 3 * K_N /* tcp-bind,ts,no errcb */, 0 + 2 * K_N /* tcp,no errcb */ };
+	int a = mc_param("cfgs", 1) ? mc_choose(K_N * 2 * 2, 0, "cfgA") : curated[mc_choose(4, 0, "cfgA")];
 	int b = mc_choose(8, 0, "cfgB");
+	n_answers = mc_param("answers", A_N); if (n_answers < 2 || n_answers > A_N) n_answers = A_N;
+	incb_max = mc_param("incb", 99); incb_used = 0;
 	C.kind = a % K_N; C.ts = (a / K_N) & 1; C.errcb = !((a / K_N) >> 1 & 1);
 	C.cof = !(b & 1); C.disabled = b >> 1 & 1; C.cb0 = !(b >> 2 & 1);
 	if (!threads) C.ts = 0;
